@@ -53,9 +53,15 @@ Tags(r) ==
                                                             ru == Rect(NodeOf(r, r.routes[e].u))  rv == Rect(NodeOf(r, r.routes[e].v))
                                                         IN  ~((Inside(pts[1], ru, r.pad) /\ Inside(pts[Len(pts)], rv, r.pad)) \/ (Inside(pts[1], rv, r.pad) /\ Inside(pts[Len(pts)], ru, r.pad)))
                           THEN {"route-does-not-join-its-end-nodes"} ELSE {})
-                    \cup (IF \E e \in OK : \E i \in 1..(Len(r.routes[e].pts) - 1), k \in DOMAIN r.nodes :
-                                r.nodes[k][1] \notin {r.routes[e].u, r.routes[e].v} /\ Through(r.routes[e].pts[i], r.routes[e].pts[i + 1], Rect(r.nodes[k]))
-                          THEN {"route-through-a-third-node"} ELSE {}))
+                    \cup (LET SlantT(e, i) == LET a == r.routes[e].pts[i]  b == r.routes[e].pts[i + 1] IN Abs(a[1] - b[1]) > TOL /\ Abs(a[2] - b[2]) > TOL
+                              thr == {<<e, i>> \in OK \X (1..50) : i < Len(r.routes[e].pts) /\ \E k \in DOMAIN r.nodes :
+                                          r.nodes[k][1] \notin {r.routes[e].u, r.routes[e].v} /\ Through(r.routes[e].pts[i], r.routes[e].pts[i + 1], Rect(r.nodes[k]))}
+                          IN  IF thr = {} THEN {}
+                              \* (Through is exact for axis-parallel segments.)  Every offending segment is the off-axis leg into an end node: the
+                              \* node it skims is one that leg would have cleared had it been level -- the class of that leg (F46)
+                              ELSE IF \A p \in thr : SlantT(p[1], p[2]) /\ p[2] \in {1, Len(r.routes[p[1]].pts) - 1}
+                                   THEN {"route-through-a-third-node:on-the-off-axis-leg-into-an-end-node"}
+                              ELSE {"route-through-a-third-node"}))
               \cup (LET badc == {<<0, r.cx[i]>> : i \in {i \in DOMAIN r.cx : ~ConOK(r, r.cx[i], 0)}} \cup {<<1, r.cy[i]>> : i \in {i \in DOMAIN r.cy : ~ConOK(r, r.cy[i], 1)}}
                         \* the pairs constrained in the last logged state of the planar graph P, whose positions are the ones handed back
                         inP == {{r.pcons[i][1], r.pcons[i][2]} : i \in DOMAIN r.pcons}
